@@ -1,6 +1,8 @@
 import Casket.Proofs.Parser
 import Casket.Proofs.ParserTerm
+import Casket.Proofs.ParserTotal
 import Casket.Proofs.ParserRT
+import Casket.Proofs.ParserSplice
 import Casket.Proofs.ParserCycle
 import Casket.Proofs.Env
 import Casket.Proofs.Lexer
@@ -77,6 +79,31 @@ theorem C10_parse_terminates_no_import_partial (cfg : Cfg) (fuel : Nat) (fn : St
   rw [h] at this
   exact this
 
+/-- Termination WITH imports.  PARTIAL — what is missing: configurations that DEFINE snippets (`Hyp` asks that no
+source token expands to something starting with `(`), and environment values that loop (F19).  For everything
+else — any bytes in the input and in any finite set of files, imports of files and globs nested to any depth,
+import cycles of every shape — the repaired parser returns: the fuel
+`tokens(input) · (L + 2)^N` (N = number of files, L = total number of tokens in them) is never used up.
+Proof: the cycle check keeps the sources being expanded distinct (`FOK`), so at most N are nested; a token at import
+depth d weighs `(L+2)^(N-d)`; reading a token lowers the total weight, and an import replaces two tokens of depth
+d by at most L tokens of depth d+1, which weigh less than one of them (`import_measure`). -/
+theorem C10_parse_total_files_partial (cfg : Cfg) (fuel : Nat) (fn : String) (input : Bytes)
+    (hyp : Hyp cfg (lex input))
+    (hf : (lex input).length * (Lmax cfg + 2) ^ cfg.fs.files.length < fuel) :
+    (∃ bs, parse cfg fuel fn input = .ok bs) ∨ (∃ c f l, parse cfg fuel fn input = .err c f l) := by
+  have h := parse_tm cfg fuel fn input hyp hf
+  cases hr : parse cfg fuel fn input with
+  | ok bs => exact Or.inl ⟨bs, rfl⟩
+  | err c f l => exact Or.inr ⟨c, f, l, rfl⟩
+  | panic m => exact absurd hr (C10_parse_no_panic cfg fuel fn input m)
+  | timeout => rw [hr] at h; exact h.elim
+
+/-- non-vacuity: the hypothesis holds for a directory whose file imports ITSELF (finding F8's input); the bound is
+2·(2+2)^1 + 1 = 9 steps, and the answer is the cycle error -/
+example : Hyp { fs := selfFS, envFuel := 3 } (lex sImportF0) ∧
+    (lex sImportF0).length * (Lmax { fs := selfFS, envFuel := 3 } + 2) ^ selfFS.files.length < 9 :=
+  ⟨hyp_of_noRef _ _ rfl (by decide) (by decide), by decide⟩
+
 /-- the hypothesis is decidable for texts without `{%` / `{$`, and it holds for ordinary configurations:
 `host {⏎ dir "a b" {⏎  x⏎ }⏎}` (a test of non-vacuity) -/
 example : Plain {} (lex [0x68, 0x6F, 0x73, 0x74, 0x20, 0x7B, 0x0A, 0x20, 0x64, 0x69, 0x72, 0x20, 0x22, 0x61, 0x20, 0x62, 0x22,
@@ -151,17 +178,80 @@ example :
     (expectedBlock b).tokens.map (fun p => (p.1, p.2.length)) = [([0x64, 0x69, 0x72], 6), ([0x6C, 0x6F, 0x67], 1)] := by
   decide
 
+/-- Structure preservation ACROSS an import.  A server block one run of whose directives has been moved, as whole
+lines, into a file and replaced by the line `import <file>` parses — together with any blocks written after it —
+to the blocks of the inline text in which that run stands in its place: same keys, and per directive name the
+same tokens in order; the tokens of the run carry the file's name and lines (`fileToks`).
+PARTIAL — what is missing: more than one import per parse, an import in a block other than the first, imports
+nested in sub-blocks or at address position, glob patterns matching several files, snippets (all of these are
+covered by the stream c10.rt, which splits at random up to three levels deep). -/
+theorem C10_import_splice_partial (cfg : Cfg) (hf : 0 < cfg.envFuel) (hv : cfg.valid = none) (hcc : cfg.cycleCheck = true)
+    (fn : String) (b : WBlockI) (run : List WDir) (bs : List WBlock) (name : String) (content : Bytes)
+    (hline : importLineOK b ((dirToks b.ds2 ++ [b.close]).head?.getD b.close) = true)
+    (hres : resolve cfg.fs b.arg.text = .files [(name, content)]) (hcont : content.isEmpty = false)
+    (hrun : dirToks run = fileToks name content)
+    (hinl : blockOK (b.inline run) = true) (hbs : ∀ x ∈ bs, blockOK x = true) (fuel : Nat)
+    (hfuel : 2 * (b.toks ++ flatten bs).length + 2 * (fileToks name content).length + 6 ≤ fuel) :
+    parseTokens cfg fuel fn (b.toks ++ flatten bs) = .ok (expectedBlock (b.inline run) :: bs.map expectedBlock) :=
+  parse_splice cfg hf hv hcc fn b run bs name content hline hres hcont hrun hinl hbs fuel hfuel
+
+/-- non-vacuity (a test, by evaluation): `host {⏎ dir1 a⏎ import f0⏎ log⏎}` with the file `f0` = `dir2 x⏎` satisfies every
+hypothesis of the splice theorem — the lexer's tokens are `b.toks`, the import line is well formed, the file resolves, its
+tokens are the run, and the inline block passes `blockOK` -/
+example :
+    let t (f : String) (l : Nat) (s : List UInt8) : Token := ⟨f, l, s⟩
+    let b : WBlockI := {
+      keys := [t "" 1 [0x68, 0x6F, 0x73, 0x74]], open_ := t "" 1 lbrace, ds1 := [⟨t "" 2 [0x64, 0x69, 0x72, 0x31], [t "" 2 [0x61]]⟩],
+      imp := t "" 3 sImport, arg := t "" 3 [0x66, 0x30], ds2 := [⟨t "" 4 [0x6C, 0x6F, 0x67], []⟩], close := t "" 5 rbrace }
+    let run : List WDir := [⟨t "f0" 1 [0x64, 0x69, 0x72, 0x32], [t "f0" 1 [0x78]]⟩]
+    let fs : FS := ⟨[("f0", [0x64, 0x69, 0x72, 0x32, 0x20, 0x78, 0x0A])]⟩
+    lex [0x68, 0x6F, 0x73, 0x74, 0x20, 0x7B, 0x0A, 0x20, 0x64, 0x69, 0x72, 0x31, 0x20, 0x61, 0x0A, 0x20, 0x69, 0x6D, 0x70, 0x6F, 0x72, 0x74, 0x20, 0x66, 0x30, 0x0A, 0x20, 0x6C, 0x6F, 0x67, 0x0A, 0x7D] = b.toks ∧
+    importLineOK b ((dirToks b.ds2 ++ [b.close]).head?.getD b.close) = true ∧
+    resolve fs b.arg.text = .files [("f0", [0x64, 0x69, 0x72, 0x32, 0x20, 0x78, 0x0A])] ∧
+    dirToks run = fileToks "f0" [0x64, 0x69, 0x72, 0x32, 0x20, 0x78, 0x0A] ∧ blockOK (b.inline run) = true := by
+  decide
+
+/-- "Regardless of whether the text was written inline or in an imported file": if the same directives (same texts,
+`dirTexts`) are written inline as `runI` — any layout that is a written configuration — instead of being imported,
+both parses succeed and return the same blocks up to the tokens' file/line attributes (`textsOf`: keys, and
+per directive name the token texts in order).  PARTIAL: same scope as `C10_import_splice_partial`. -/
+theorem C10_inline_import_equiv_partial (cfg : Cfg) (hf : 0 < cfg.envFuel) (hv : cfg.valid = none) (hcc : cfg.cycleCheck = true)
+    (fn : String) (b : WBlockI) (run runI : List WDir) (bs : List WBlock) (name : String) (content : Bytes)
+    (hline : importLineOK b ((dirToks b.ds2 ++ [b.close]).head?.getD b.close) = true)
+    (hres : resolve cfg.fs b.arg.text = .files [(name, content)]) (hcont : content.isEmpty = false)
+    (hrun : dirToks run = fileToks name content)
+    (hinl : blockOK (b.inline run) = true) (hinlI : blockOK (b.inline runI) = true)
+    (hsame : run.map dirTexts = runI.map dirTexts) (hbs : ∀ x ∈ bs, blockOK x = true) (fuel : Nat)
+    (hfuel : 2 * (b.toks ++ flatten bs).length + 2 * (fileToks name content).length + 6 ≤ fuel)
+    (hfuelI : (flatten (b.inline runI :: bs)).length + 1 ≤ fuel) :
+    ∃ r1 r2, parseTokens cfg fuel fn (b.toks ++ flatten bs) = .ok r1 ∧
+      parseTokens cfg fuel fn (flatten (b.inline runI :: bs)) = .ok r2 ∧ r1.map textsOf = r2.map textsOf := by
+  refine ⟨_, _, parse_splice cfg hf hv hcc fn b run bs name content hline hres hcont hrun hinl hbs fuel hfuel,
+    parseTokens_rt cfg hf hv fn (b.inline runI :: bs) (fun x hx => by
+      rcases List.mem_cons.mp hx with rfl | hx
+      · exact hinlI
+      · exact hbs x hx) fuel hfuelI, ?_⟩
+  simp only [List.map_cons, List.cons.injEq, and_true]
+  exact textsOf_expected b run runI hsame
+
 /-! ### environment placeholders -/
 
 /-- A placeholder `{$NAME}` inside a token is replaced by the variable's value (unset = empty): for every text
 `pre{$NAME}post` whose other bytes, name and value are free of `{` (a value that itself contains a placeholder
 is expanded again by the real code — and a value that contains its own placeholder is finding F19).
-The `{%NAME%}` form is covered by the correspondence streams only. -/
+Nested and adjacent placeholders are covered by the correspondence streams only. -/
 theorem C10_env_replaced (env : Env) (pre name post : Bytes) (fuel : Nat) (hfuel : 2 ≤ fuel)
     (h1 : (0x7B : UInt8) ∉ pre) (h2 : (0x7B : UInt8) ∉ name) (h3 : (0x7B : UInt8) ∉ post)
     (h4 : (0x7B : UInt8) ∉ getenv env name) (h5 : (0x7D : UInt8) ∉ name) (h6 : name ≠ []) :
     replaceEnvVars env fuel (dollarRef pre name post) = some (pre ++ getenv env name ++ post) :=
   replaceEnvVars_dollar env pre name post fuel hfuel h1 h2 h3 h4 h5 h6
+
+/-- The Windows-style placeholder `{%NAME%}` likewise (the name additionally free of `%` and `}`). -/
+theorem C10_env_replaced_percent (env : Env) (pre name post : Bytes) (fuel : Nat) (hfuel : 2 ≤ fuel)
+    (h1 : (0x7B : UInt8) ∉ pre) (h2 : (0x7B : UInt8) ∉ name) (h3 : (0x7B : UInt8) ∉ post)
+    (h4 : (0x7B : UInt8) ∉ getenv env name) (h5 : (0x7D : UInt8) ∉ name) (h5' : (0x25 : UInt8) ∉ name) (h6 : name ≠ []) :
+    replaceEnvVars env fuel (percentRef pre name post) = some (pre ++ getenv env name ++ post) :=
+  replaceEnvVars_percent env pre name post fuel hfuel h1 h2 h3 h4 h5 h5' h6
 
 /-- non-vacuity: `a{$X}:80` with X = `hi` -/
 example : replaceEnvVars [([0x58], [0x68, 0x69])] 5 (dollarRef [0x61] [0x58] [0x3A, 0x38, 0x30]) = some [0x61, 0x68, 0x69, 0x3A, 0x38, 0x30] :=
